@@ -593,4 +593,40 @@ impl World<Tok> {
             self.check_reg(out, r, &op);
         }
     }
+
+    /// `scgen dst a variant`: scalar_operation / _consume_self / _assign with a recording closure
+    pub fn scgen(&mut self, out: &mut Out, dst: usize, a: usize, variant: &str) {
+        let op = format!("scgen {dst} {a} {variant}");
+        out.announce(&op);
+        let scalar = Tok::new("S");
+        let calls = std::cell::Cell::new(0usize);
+        let (order, rf) = self.refs[a].clone().unwrap();
+        let n = self.regs[a].as_ref().unwrap().size();
+        let want = Ref { nrows: rf.nrows, ncols: rf.ncols, rows: rf.rows.iter().map(|r| r.iter().map(|e| format!("[{e}|S]")).collect()).collect() };
+        let head;
+        match variant {
+            "ref" => {
+                let m = self.regs[a].as_ref().unwrap();
+                let r = catch(|| m.scalar_operation(&scalar, |e, s| { calls.set(calls.get() + 1); Tok::new(format!("[{}|{}]", e.val, s.val)) }));
+                head = match r { Some(Ok(x)) => { self.regs[dst] = Some(x); self.refs[dst] = Some((order, want)); "ok".to_string() } Some(Err(e)) => format!("err {}", err_name(e)), None => "panic".to_string() };
+            }
+            "consume" => {
+                let m = self.regs[a].take().unwrap();
+                self.refs[a] = None;
+                let r = catch(|| m.scalar_operation_consume_self(&scalar, |e, s| { calls.set(calls.get() + 1); Tok::new(format!("[{}|{}]", e.val, s.val)) }));
+                head = match r { Some(Ok(x)) => { self.regs[dst] = Some(x); self.refs[dst] = Some((order, want)); "ok".to_string() } Some(Err(e)) => format!("err {}", err_name(e)), None => "panic".to_string() };
+            }
+            _ => {
+                let m = self.regs[a].as_mut().unwrap();
+                let r = catch(|| { m.scalar_operation_assign(&scalar, |e, s| { calls.set(calls.get() + 1); e.val = format!("[{}|{}]", e.val, s.val); }); });
+                head = if r.is_some() { self.refs[a] = Some((order, want)); "ok".to_string() } else { "panic".to_string() };
+            }
+        }
+        if head != "ok" || calls.get() != n {
+            out.oracle_fail(&format!("{op}: outcome `{head}`, closure called {} times for {n} elements", calls.get()));
+        }
+        out.observe(&format!("{head} | {} | {}", self.reg_str(dst), self.reg_str(a)));
+        self.check_reg(out, dst, &op);
+        self.check_reg(out, a, &op);
+    }
 }
